@@ -66,7 +66,8 @@ def main():
     for d, b in sorted(f.bodies.items()):
         if b.get('body') is None or b.get('derived') or '::tests::' in d or 'lib_tests' in d or d.startswith('{') : continue
         if (b.get('sp') or '').startswith('/'): continue
-        for path, kind in perturb.sites_of(b['body']): pool.append((d, path, kind))
+        for path, kind in perturb.sites_of(b['body']):
+            if not os.environ.get('KINDS') or kind in os.environ['KINDS'].split(','): pool.append((d, path, kind))
     random.Random(seed).shuffle(pool)
     picked = pool[:n]
     with multiprocessing.Pool(jobs, initializer=init, initargs=(ff,)) as p:
